@@ -127,12 +127,12 @@ ADDENDA = {
     "C03": dict(technique="; half-turn world; abstract interpretation of log(exp t) over truncated power series (R-SERIES)",
                 text=" R-JET.halfturn: SO3::log at the exact half turn (every comparison decided by exact substitution) returns +-pi*v. R-SERIES.log: for the six groups the code of log applied to the code of exp gives log(exp t) = t + O(|t|^6) coefficient by coefficient, in the closed-form world and in every small-angle world.",
                 design="3/C03, 10.6, 10.7"),
-    "C05": dict(technique="; exact polynomial Jacobians of compose/inverse/act (R-POLY.jac); power-series interpretation of the Jacobians written by exp and log (R-SERIES)",
+    "C05": dict(technique="; first-order floating-point error analysis of the closed-form arms (R-ROUND, engine/rounding.py); exact polynomial Jacobians of compose/inverse/act (R-POLY.jac); power-series interpretation of the Jacobians written by exp and log (R-SERIES)",
                 text=" R-POLY.jac (exact): the Jacobians of inverse, compose and act equal the derivatives that follow from the matrix realisation. R-SERIES.expjac/logjac: the Jacobian written by exp(J), resp. by log(J) at exp(t), equals sum (-ad)^k/(k+1)!, resp. sum B_k (-ad)^k/k!, through order 4 for the six groups (closed-form and small-angle worlds). R-SERIES.deriv (first principles, no theory table): for SO2 and SE2 every operation and for SO3 inverse / compose / between / act / exp / log / rminus (thorough: + rplus, lplus, lminus; SE3 inverse, between, act, exp) the Jacobian written by the code equals the eta-coefficient of f(.. (+) eta d ..) (-) f(..), eta^2 = 0, computed by interpreting the library's own code over truncated power series, through order 2 at the identity for a symbolic direction; every Jacobian is also requested alone.",
-                note=" The transcendental Jacobians are decided through order 4 (series) / order 2 (first principles) of their expansion at the origin only; rminus / lminus / log of SE3 and everything of SE_2_3 / SGal3 in R-SERIES.deriv are not attempted (cost).", design="3/C05, 10.5, 10.6, 10.8"),
-    "C06": dict(technique="; exact adjoint (R-POLY.adj); power-series interpretation of rjac / ljac / rjacinv / ljacinv / Adj(exp t) (R-SERIES)",
+                note=" R-ROUND reports SE2 exp's Jacobian cells (0,2), (1,2) on the pinned tree (genuine, replayed; 2 known findings). The transcendental Jacobians are decided through order 4 (series) / order 2 (first principles) of their expansion at the origin only; rminus / lminus / log of SE3 and everything of SE_2_3 / SGal3 in R-SERIES.deriv are not attempted (cost).", design="3/C05, 10.5, 10.6, 10.8, 10.11"),
+    "C06": dict(technique="; first-order floating-point error analysis of the closed-form arms (R-ROUND, engine/rounding.py); exact adjoint (R-POLY.adj); power-series interpretation of rjac / ljac / rjacinv / ljacinv / Adj(exp t) (R-SERIES)",
                 text=" R-POLY.adj (exact): X.adj() e_i = vee(T(X) E_i T(X)^-1). R-SERIES: rjac, ljac, rjacinv, ljacinv equal their series in +-ad (Bernoulli numbers for the inverses; Eigen's inverse() of I + O(t) summarised by its Neumann series) and Adj(exp t) = sum ad^k/k!, through order 4 for the six groups, closed-form and small-angle worlds; a data-dependent isZero() test on input coefficients is evaluated in both input worlds.",
-                note=" The series identities are decided through order 4 only.", design="3/C06, 10.5, 10.6"),
+                note=" R-ROUND (10.11): for every observable of the switch functions the first-order rounding-error bound of the closed-form arm, worst over a ladder of rotation magnitudes from the switch-over to 0.1, is at most 1e-6 (double) relative to max(1, |value|); on the pinned tree it reports SE2 rjacinv / ljacinv / ljac and SGal3 ljac block N (9 known findings, each replayed against the real code). Not counted by R-ROUND: needle inputs where two nearly equal reals straddle a rounding boundary, the order of partial sums, float and dual scalars. The series identities are decided through order 4 only.", design="3/C06, 10.5, 10.6, 10.11"),
     "C08": dict(text=" Producers include the planar casts (rebuild from the angle)."),
     "C13": dict(text=" R-MPT.funnel-last: in every constructor the validating step is the last access to the coefficient storage.", design="3/C13, 10.7"),
     "C15": dict(technique="; end points as identities of group terms (R-END, free-group reduction)",
